@@ -237,7 +237,8 @@ def run(rep, tier, seed, wd):
         decl = ("%s = %s" if p["k"] == "ann" else "%s := %s") % (ps, vs)
         items.append({"steps": [{"src": decl, "obs": names}], "group": 0})
         meta.append(("decl", p, v, names))
-        items.append({"steps": [{"src": "switch (%s) case %s -> \"arm\" case _ -> \"nomatch\"" % (vs, ps)}], "group": 0})
+        items.append({"steps": [{"src": "switch (%s) case %s -> \"arm\" case _ -> \"nomatch\"" % (
+            R.val_src(v, big=True) if pats % 2 else vs, ps)}], "group": 0})
         meta.append(("switch", p, v, names))
         if not R.has_kind(p, ("lit",)):
             one = R.pat_src(p, top=(p["k"] == "ann" and p["p"]["k"] in ("var", "wild")))
